@@ -1017,7 +1017,9 @@ def phase3_inputs(rng, big):
         hs = list(range(len(HISTORIES))) if big and j < 9 else [(2 * j) % len(HISTORIES), (2 * j + 5) % len(HISTORIES)]
         for t, h in enumerate(hs):
             yield {"op": "hist", "mask": rng.choice(MASKS), "seed": rng.randrange(10 ** 9), "objs": objs, "reads": HISTORIES[h],
-                   "w_tilde": bool((j + t) % 2), "preload": (t == 1) if not big else (t % 3 == 2)}
+                   "w_tilde": bool((j + t) % 2), "preload": (t == 1) if not big else (t % 3 == 2),
+                   "settings": [{}, {"use_positive_only_solver": False}, {"force_edge_pixels_to_zeros": False},
+                                {"use_positive_only_solver": False, "force_edge_pixels_to_zeros": False}][(j + 2 * t) % 4]}
         j += 1
     # (a)(c)(d) reuse / edit histories of scheme objects and linear objects
     for i in range(120 if big else 14):
@@ -1132,12 +1134,15 @@ def run_hist(aa, inp):
     keep = np.array([r for b, r in zip(blocks_np, regd) for _ in range(len(b))], dtype=bool)
     kernel = any(d["scheme"] and d["scheme"]["name"] in KERNELS for d in inp["objs"])
     L = [lobj_of(d, lo) for d, lo in zip(inp["objs"], objs2)]
-    settings = aa.SettingsInversion(use_w_tilde=bool(inp["w_tilde"]))
-    F = np.array(aa.Inversion(dataset=ds, linear_obj_list=objs2, settings=aa.SettingsInversion(use_w_tilde=bool(inp["w_tilde"]))).curvature_matrix, dtype=float)
+    # non-default settings combinations (they change the reconstruction, never the regularization matrices); ONE settings object
+    # serves both inversions; without a preload the library's own (shared) default Preloads object is used
+    opts = inp.get("settings") or {}
+    settings = aa.SettingsInversion(use_w_tilde=bool(inp["w_tilde"]), **opts)
+    F = np.array(aa.Inversion(dataset=ds, linear_obj_list=objs2, settings=settings).curvature_matrix, dtype=float)
     P = Hs.copy() if inp["preload"] else None
     P_bytes = P.tobytes() if P is not None else None
-    inv = aa.Inversion(dataset=ds, linear_obj_list=objs, settings=settings,
-                       preloads=Preloads(regularization_matrix=P) if P is not None else Preloads())
+    if P is not None: inv = aa.Inversion(dataset=ds, linear_obj_list=objs, settings=settings, preloads=Preloads(regularization_matrix=P))
+    else: inv = aa.Inversion(dataset=ds, linear_obj_list=objs, settings=settings)
     notes, ok = {}, True
     pairs, terms_x = [], []            # (H, Hr) observations sent to Coq; regularization_term observations
     state = {"H": None, "Hr": None}
